@@ -82,7 +82,7 @@ theorem argmin_fold_fin {β : Type} (l : List (ℝ × β)) (v0 : ℝ) (a0 : β) 
     simp only [List.map_cons, List.foldl_cons]
     by_cases hlt : p.1 < v0
     · have hstep : argminStep (some ((EV.fin v0 : EV ℝ), a0)) (EV.fin p.1, p.2) = some (EV.fin p.1, p.2) := by
-        simp [argminStep, EV.isNaN, EV.lt, hlt]
+        simp [argminStep, nanKey, EV.isNaN, EV.lt, hlt]
       rw [hstep]
       obtain ⟨v, a, he, hm, hle, hall⟩ := ih p.1 p.2
       refine ⟨v, a, he, ?_, le_trans hle hlt.le, ?_⟩
@@ -94,7 +94,7 @@ theorem argmin_fold_fin {β : Type} (l : List (ℝ × β)) (v0 : ℝ) (a0 : β) 
         · exact hle
         · exact hall x hx
     · have hstep : argminStep (some ((EV.fin v0 : EV ℝ), a0)) (EV.fin p.1, p.2) = some (EV.fin v0, a0) := by
-        simp [argminStep, EV.isNaN, EV.lt, hlt]
+        simp [argminStep, nanKey, EV.isNaN, EV.lt, hlt]
       rw [hstep]
       obtain ⟨v, a, he, hm, hle, hall⟩ := ih v0 a0
       refine ⟨v, a, he, ?_, hle, ?_⟩
@@ -114,9 +114,12 @@ theorem nanArgmin_fin {β : Type} (l : List (ℝ × β)) (hl : l ≠ []) :
   | nil => exact absurd rfl hl
   | cons p t =>
     unfold nanArgmin
-    simp only [List.map_cons, List.foldl_cons]
+    have hall0 : ((((p :: t).map fun p => ((EV.fin p.1 : EV ℝ), p.2))).all fun x => x.1.isNaN) = false := by
+      simp [EV.isNaN]
+    rw [hall0]
+    simp only [Bool.false_eq_true, if_false, List.map_cons, List.foldl_cons]
     have h0 : argminStep (none : Option (EV ℝ × β)) (EV.fin p.1, p.2) = some (EV.fin p.1, p.2) := by
-      simp [argminStep, EV.isNaN]
+      simp [argminStep]
     rw [h0]
     obtain ⟨v, a, he, hm, hle, hall⟩ := argmin_fold_fin t p.1 p.2
     refine ⟨v, a, he, ?_, ?_⟩
